@@ -377,7 +377,7 @@ pub fn normalise(b: &Built, res: &RunResult) -> (Vec<String>, Vec<String>) {
     let mut tail = Vec::new();
     match &res.outcome {
         Outcome::Done => {}
-        Outcome::Deadlock => {
+        Outcome::Unstuck(_) | Outcome::Deadlock => {
             let who: Vec<i64> = res.stuck.iter().map(|s| s.0 as i64 + 1).collect();
             tail.push(Obj::new("deadlock").int("t", 0).int("d", 0).ints("stuck", &who).done())
         }
